@@ -106,8 +106,11 @@ func c03Value(v ast.Value) string {
 	}
 	return c03P(c03G(99, fmt.Sprintf("%T", v), nil))
 }
+// c03DescrEmptyAsNone: C08 treats an empty description and an absent one as the same AST (DESIGN Appendix A)
+var c03DescrEmptyAsNone = false
+
 func c03Descr(d *ast.StringValue) string {
-	if d == nil {
+	if d == nil || (c03DescrEmptyAsNone && d.Value == "") {
 		return c03None
 	}
 	return c03P(c03G(9, d.Value, d.Loc))
@@ -434,7 +437,7 @@ func (g *c03Gen) name() string {
 func (g *c03Gen) plainName() string { return g.r.Pick(c03Names) }
 
 var c03Ints = []string{"0", "-0", "1", "12", "-7", "2147483648", "9007199254740993"}
-var c03Floats = []string{"1.5", "0.0e-0", "1e10", "-1.25E+3", "0.5", "-0.0", "3E2", "1.0e+0"}
+var c03Floats = []string{"1.5", "0.0e-0", "1e10", "-1.25E+3", "0.5", "-0.0", "3E2", "1.0e+0", "1e0", "2.5e0"}
 var c03Strings = []string{`"a"`, `""`, `"hello world"`, `"\n\t\\\"\/\b\f\r"`, `"\u00e9"`, `"\u0041\uD83D"`, `"é😀"`, `"#not, a comment"`, `"\u000a"`, `" sp "`, `"on"`}
 var c03Blocks = []string{`"""b"""`, `""""""`, "\"\"\"\n  x\n    y\n  \"\"\"", `""" \""" q """`, "\"\"\"a\r\n  b\r  c\n d\"\"\"", "\"\"\"\n\n  é\n \n  z\n\n\"\"\"", `"""a "" b"""`, "\"\"\"abc\n   def\n  g\"\"\"", `"""\n\u0041 \ """`, "\"\"\"\tt\n\t\tu\"\"\""}
 
